@@ -29,6 +29,8 @@ type propContract struct {
 	// function's other obligations are generated, counted and reported as undecided without being attempted
 	// (they would take hours; the pinned clauses are proved under them)
 	Only []string `json:"only_clauses,omitempty"`
+	// further clauses attempted in the thorough tier only (proved there, but too slow for every change)
+	OnlyThorough []string `json:"only_clauses_thorough,omitempty"`
 }
 
 type propConfig struct {
@@ -185,10 +187,14 @@ func cmdCheck(args []string) int {
 				r.Obls = keep
 			}
 			if len(c.Only) > 0 {
+				only := c.Only
+				if *tier == "thorough" {
+					only = append(append([]string(nil), c.Only...), c.OnlyThorough...)
+				}
 				var keep []*vc.Obligation
 				for _, o := range r.Obls {
 					hit := false
-					for _, l := range c.Only {
+					for _, l := range only {
 						if strings.Contains(o.Name, l) {
 							hit = true
 						}
